@@ -115,3 +115,11 @@ impl Connection {
         }
     }
 }
+
+#[cfg(rdest_verif)]
+impl Connection {
+    /// Verification hook: number of bytes received and not yet consumed.
+    pub fn verif_buffer_len(&self) -> usize {
+        self.buffer.len()
+    }
+}
